@@ -1,6 +1,6 @@
 (* C05: lemmas about the ConcatenatedLazyIndexer model (Model/ConcatIdx.v). *)
 From Coq Require Import ZArith List Bool Lia.
-From KV Require Import Base.Sx Base.PySlice Base.AxisIndex Base.NdArray Gen.Generated Model.LazyIdx Model.ConcatIdx.
+From KV Require Import Base.Sx Base.PySlice Base.AxisIndex Base.NdArray Gen.Generated Model.LazyIdx Model.ConcatIdx Proofs.LazyIdxP.
 Import ListNotations.
 Open Scope Z_scope.
 
@@ -51,21 +51,6 @@ Lemma concat_empty_tail_refuted :
   /\ spec_concat two_parts [] [full; ASlice (Some 1) (Some 0) None] <> Err.
 Proof. split; [vm_compute; reflexivity|vm_compute; discriminate]. Qed.
 
-Definition parts_3_1 : list craw :=
-  [mk_craw [3; 1] [] (arange [3; 1] 0) 0; mk_craw [3; 1] [ASlice (Some (-1)) None (Some 2)] (arange [3; 1] 1) 0].
-
-(* F32: c[-9:1:-1] is empty in numpy but answered with a row of the last part *)
-Lemma concat_negative_step_refuted :
-  exists out, run_concat parts_3_1 [ASlice (Some (-9)) (Some 1) (Some (-1))] = Ok out
-  /\ spec_concat parts_3_1 [] [ASlice (Some (-9)) (Some 1) (Some (-1))] <> Ok out
-  /\ spec_concat parts_3_1 [] [ASlice (Some (-9)) (Some 1) (Some (-1))] <> Err.
-Proof. eexists. split; [vm_compute; reflexivity|]. split; vm_compute; discriminate. Qed.
-
-(* F33: an out-of-range tail scalar is not rejected when the head list is empty *)
-Lemma concat_unchecked_tail_scalar_refuted :
-  exists out, run_concat two_parts [AList []; AInt 5] = Ok out /\ spec_concat two_parts [] [AList []; AInt 5] = Err.
-Proof. eexists. split; vm_compute; reflexivity. Qed.
-
 (* supported cases on the same parts agree (the hypotheses of the statements above are not vacuous) *)
 Lemma concat_example_supported :
   run_concat two_parts [ASlice (Some 1) None (Some 3)] = spec_concat two_parts [] [ASlice (Some 1) None (Some 3)]
@@ -74,3 +59,798 @@ Lemma concat_example_supported :
   /\ run_concat two_parts [AMask [true; false; false; true; true]; AInt 0]
      = spec_concat two_parts [] [AMask [true; false; false; true; true]; AInt 0].
 Proof. repeat split; vm_compute; try reflexivity; discriminate. Qed.
+
+(* ================================================================== C05_concat *)
+
+(* ------------------------------------------------------------------ 1. arithmetic progressions *)
+
+Lemma py_range_nil s e st : 0 < st -> e <= s -> py_range s e st = [].
+Proof.
+  intros H1 H2. apply py_range_empty. unfold range_len.
+  assert (E : (0 <? st) = true) by lia. rewrite E. destruct (s <? e) eqn:E2; [lia|reflexivity].
+Qed.
+
+Lemma py_range_cons s e st : 0 < st -> s < e -> py_range s e st = s :: py_range (s + st) e st.
+Proof.
+  intros H1 H2. unfold py_range.
+  assert (L : range_len s e st = 1 + range_len (s + st) e st).
+  { unfold range_len. assert (E : (0 <? st) = true) by lia. rewrite E.
+    assert (E2 : (s <? e) = true) by lia. rewrite E2.
+    destruct (s + st <? e) eqn:E3.
+    - replace (e - s - 1) with ((e - (s + st) - 1) + 1 * st) by lia. rewrite Z.div_add by lia. lia.
+    - rewrite Z.div_small by lia. lia. }
+  rewrite L. pose proof (range_len_nonneg (s + st) e st ltac:(lia)).
+  replace (Z.to_nat (1 + range_len (s + st) e st)) with (S (Z.to_nat (range_len (s + st) e st))) by lia.
+  apply range_list_S.
+Qed.
+
+(* first element >= B of the progression start, start+st, ... (B may lie below start) *)
+Definition first_ge (start st B : Z) : Z := if B <=? start then start else B + ((start - B) mod st).
+
+Lemma first_ge_ge start st B : 0 < st -> B <= first_ge start st B /\ start <= first_ge start st B.
+Proof.
+  intro H. unfold first_ge. destruct (B <=? start) eqn:E; [lia|].
+  pose proof (Z.mod_pos_bound (start - B) st H).
+  pose proof (Z.div_mod (start - B) st ltac:(lia)).
+  assert ((start - B) / st < 0) by (apply Z.div_lt_upper_bound; lia). nia.
+Qed.
+
+Lemma first_ge_step start st B : 0 < st -> start < B ->
+  first_ge (start + st) st B = first_ge start st B.
+Proof.
+  intros H HB. unfold first_ge. assert (E : (B <=? start) = false) by lia. rewrite E.
+  destruct (B <=? start + st) eqn:E2.
+  - destruct (Z.eq_dec B (start + st)) as [->|Ne].
+    + replace (start - (start + st)) with (-1 * st) by lia. rewrite Z.mod_mul by lia. lia.
+    + replace (start - B) with ((start + st - B) + (-1) * st) by lia. rewrite Z.mod_add by lia.
+      rewrite Z.mod_small by lia. lia.
+  - replace (start + st - B) with ((start - B) + 1 * st) by lia. now rewrite Z.mod_add by lia.
+Qed.
+
+(* splitting a progression at a boundary *)
+Lemma py_range_split st e B : 0 < st -> forall (n : nat) s, e - s <= Z.of_nat n ->
+  py_range s e st = py_range s (Z.min B e) st ++ py_range (first_ge s st B) e st.
+Proof.
+  intros Hst. induction n as [|n IH]; intros s Hn.
+  - rewrite (py_range_nil s e) by lia. rewrite (py_range_nil s (Z.min B e)) by lia.
+    destruct (first_ge_ge s st B Hst). rewrite py_range_nil by lia. reflexivity.
+  - destruct (Z_lt_ge_dec s e) as [Hlt|Hge].
+    + destruct (Z_le_gt_dec B s) as [HB|HB].
+      * rewrite (py_range_nil s (Z.min B e)) by lia. unfold first_ge.
+        assert (E : (B <=? s) = true) by lia. now rewrite E.
+      * rewrite (py_range_cons s e) by lia. rewrite (py_range_cons s (Z.min B e)) by lia.
+        rewrite (IH (s + st)) by lia. rewrite first_ge_step by lia. reflexivity.
+    + rewrite (py_range_nil s e) by lia. rewrite (py_range_nil s (Z.min B e)) by lia.
+      destruct (first_ge_ge s st B Hst). rewrite py_range_nil by lia. reflexivity.
+Qed.
+
+Lemma first_ge_idem start st B1 B2 : 0 < st -> B1 <= B2 ->
+  first_ge (first_ge start st B1) st B2 = first_ge start st B2.
+Proof.
+  intros H HB. unfold first_ge at 2. destruct (B1 <=? start) eqn:E1; [reflexivity|].
+  unfold first_ge. assert (E2 : (B2 <=? start) = false) by lia. rewrite E2.
+  pose proof (Z.mod_pos_bound (start - B1) st H) as MB.
+  destruct (B2 <=? B1 + (start - B1) mod st) eqn:E3.
+  - (* the first element >= B1 is already >= B2 *)
+    pose proof (Z.mod_pos_bound (start - B2) st H) as MB2.
+    assert (K : (B1 + (start - B1) mod st - B2 - (start - B2) mod st) mod st = 0).
+    { pose proof (Z.div_mod (start - B1) st ltac:(lia)). pose proof (Z.div_mod (start - B2) st ltac:(lia)).
+      replace (B1 + (start - B1) mod st - B2 - (start - B2) mod st)
+        with (((start - B2) / st - (start - B1) / st) * st) by lia. apply Z.mod_mul. lia. }
+    apply Z.mod_divide in K; [|lia]. destruct K as [k K].
+    assert (k = 0) by nia. nia.
+  - f_equal. replace (B1 + (start - B1) mod st - B2) with ((start - B2) + (- ((start - B1) / st)) * st).
+    + now rewrite Z.mod_add by lia.
+    + pose proof (Z.div_mod (start - B1) st ltac:(lia)). lia.
+Qed.
+
+Lemma py_range_shift off s e st : st <> 0 -> map (fun x => off + x) (py_range s e st) = py_range (off + s) (off + e) st.
+Proof.
+  intro H. unfold py_range.
+  assert (L : range_len (off + s) (off + e) st = range_len s e st).
+  { unfold range_len. replace (off + e - (off + s) - 1) with (e - s - 1) by lia.
+    replace (off + s - (off + e) - 1) with (s - e - 1) by lia.
+    destruct (0 <? st); [destruct (s <? e) eqn:A, (off + s <? off + e) eqn:B; lia
+                        |destruct (e <? s) eqn:A, (off + e <? off + s) eqn:B; lia]. }
+  rewrite L. unfold range_list. rewrite map_map. apply map_ext. intro i. lia.
+Qed.
+
+(* the rows a part [off, off+h) contributes to a positive-stride slice of the concatenation *)
+Lemma local_slice_positions off h cs stop st ps : 0 < st -> 0 <= h -> 0 <= cs -> 0 <= stop - off ->
+  slice_positions h (Some cs) (Some (stop - off)) (Some st) = Some ps ->
+  map (fun x => off + x) ps = py_range (off + cs) (Z.min (off + h) stop) st.
+Proof.
+  intros Hst Hh Hcs Hstop H. unfold slice_positions, slice_indices in H.
+  assert (E0 : (st =? 0) = false) by lia. assert (E1 : (st <? 0) = false) by lia. rewrite E0, E1 in H.
+  assert (E2 : (cs <? 0) = false) by lia. assert (E3 : (stop - off <? 0) = false) by lia. rewrite E2, E3 in H.
+  injection H as <-. rewrite py_range_shift by lia.
+  replace (off + Z.min (stop - off) h) with (Z.min (off + h) stop) by lia.
+  destruct (Z_le_gt_dec h cs).
+  - rewrite !py_range_nil by lia. reflexivity.
+  - now replace (Z.min cs h) with cs by lia.
+Qed.
+
+(* ------------------------------------------------------------------ 2. part boundaries and find_indexer *)
+
+Definition bnd (lens : list Z) (j : nat) : Z := zsum (firstn j lens).
+
+Lemma bnd_cons h r j : bnd (h :: r) (S j) = h + bnd r j.
+Proof. reflexivity. Qed.
+Lemma bnd_0 lens : bnd lens 0 = 0.
+Proof. reflexivity. Qed.
+
+Lemma bnd_S lens j : (j < List.length lens)%nat -> bnd lens (S j) = bnd lens j + nth j lens 0.
+Proof.
+  revert j. induction lens as [|h r IH]; intros j H; [cbn in H; lia|].
+  destruct j.
+  - rewrite bnd_cons, !bnd_0. cbn [nth]. lia.
+  - rewrite !bnd_cons. cbn [nth]. rewrite IH by (cbn in H; lia). lia.
+Qed.
+
+Lemma bnd_all lens : bnd lens (List.length lens) = zsum lens.
+Proof. unfold bnd. now rewrite firstn_all. Qed.
+
+Lemma bnd_mono lens j : Forall (fun h => 0 <= h) lens -> (j < List.length lens)%nat -> bnd lens j <= bnd lens (S j).
+Proof.
+  intros H Hj. rewrite bnd_S by assumption. rewrite Forall_forall in H.
+  specialize (H (nth j lens 0) (nth_In _ _ Hj)). lia.
+Qed.
+
+Lemma bnd_mono_le lens i j : Forall (fun h => 0 <= h) lens -> (i <= j <= List.length lens)%nat -> bnd lens i <= bnd lens j.
+Proof.
+  intros H [H1 H2]. induction j as [|j IH]; [replace i with 0%nat by lia; lia|].
+  destruct (Nat.eq_dec i (S j)) as [->|Ne]; [lia|].
+  pose proof (bnd_mono lens j H ltac:(lia)). specialize (IH ltac:(lia) ltac:(lia)). lia.
+Qed.
+
+Lemma starts_from_length o lens : List.length (starts_from o lens) = List.length lens.
+Proof. revert o. induction lens; intro o; cbn; auto. Qed.
+
+Lemma starts_from_nth lens : forall o j, (j < List.length lens)%nat -> nth j (starts_from o lens) 0 = o + bnd lens j.
+Proof.
+  induction lens as [|h r IH]; intros o j H; [cbn in H; lia|].
+  destruct j; cbn [starts_from nth]; [rewrite bnd_0; lia|].
+  rewrite IH by (cbn in H; lia). rewrite bnd_cons. lia.
+Qed.
+
+(* number of starts <= x *)
+Lemma count_spec x : forall lens o, Forall (fun h => 0 <= h) lens ->
+  let c := List.length (filter (fun s => s <=? x) (starts_from o lens)) in
+  (c <= List.length lens)%nat
+  /\ (forall j, (j < c)%nat -> o + bnd lens j <= x)
+  /\ ((c < List.length lens)%nat -> x < o + bnd lens c)
+  /\ (o <= x -> lens <> [] -> (1 <= c)%nat).
+Proof.
+  induction lens as [|h r IH]; intros o Hn c.
+  - cbn in c. subst c. cbn. repeat split; try lia. intros; congruence.
+  - inversion Hn as [|? ? Hh Hr]; subst. cbn [starts_from filter] in c.
+    destruct (o <=? x) eqn:E.
+    + cbn [List.length] in c. specialize (IH (o + h) Hr). cbn zeta in IH.
+      set (c' := List.length (filter (fun s => s <=? x) (starts_from (o + h) r))) in *.
+      destruct IH as [I1 [I2 [I3 I4]]]. subst c. cbn [List.length]. repeat split; try lia.
+      * intros j Hj. destruct j; [rewrite bnd_0; lia|].
+        specialize (I2 j ltac:(lia)). rewrite bnd_cons. lia.
+      * intro Hc. specialize (I3 ltac:(lia)). rewrite bnd_cons. lia.
+    + (* o > x: every later start is >= o > x *)
+      assert (F : filter (fun s => s <=? x) (starts_from (o + h) r) = []).
+      { clear -E Hh Hr. assert (G : x < o + h) by lia. revert G. generalize (o + h). clear E Hh.
+        induction r as [|h' r IH]; intros o' G; [reflexivity|]. inversion Hr; subst. cbn [starts_from filter].
+        assert (E : (o' <=? x) = false) by lia. rewrite E. apply IH; auto. lia. }
+      subst c. rewrite F. cbn [List.length]. repeat split; try lia.
+      intros _. rewrite bnd_0. lia.
+Qed.
+
+Lemma find_indexer_spec lens x : Forall (fun h => 0 <= h) lens -> lens <> [] -> 0 <= x ->
+  let ind := find_indexer (starts_from 0 lens) x in
+  0 <= ind < zlen lens
+  /\ bnd lens (Z.to_nat ind) <= x
+  /\ (ind + 1 < zlen lens -> x < bnd lens (S (Z.to_nat ind))).
+Proof.
+  intros Hn Hne Hx ind. unfold ind, find_indexer, zlen.
+  destruct (count_spec x lens 0 Hn) as [C1 [C2 [C3 C4]]].
+  set (c := List.length (filter (fun s => s <=? x) (starts_from 0 lens))) in *.
+  specialize (C4 Hx Hne). split; [lia|].
+  replace (Z.to_nat (Z.of_nat c - 1)) with (c - 1)%nat by lia. split.
+  - specialize (C2 (c - 1)%nat ltac:(lia)). lia.
+  - intro H. replace (S (c - 1)) with c by lia. specialize (C3 ltac:(lia)). lia.
+Qed.
+
+Lemma py_nth_nonneg {A} (l : list A) (i : Z) d : 0 <= i < zlen l -> py_nth l i = Ok (nth (Z.to_nat i) l d).
+Proof.
+  intro H. unfold py_nth. rewrite wrap_id by assumption.
+  rewrite (nth_error_nth' l d) by (unfold zlen in H; lia). reflexivity.
+Qed.
+
+Lemma py_nth_ok_nonneg {A} (l : list A) (i : Z) x d : 0 <= i -> py_nth l i = Ok x -> i < zlen l /\ x = nth (Z.to_nat i) l d.
+Proof.
+  intros H P. unfold py_nth, wrap in P.
+  destruct ((0 <=? i) && (i <? zlen l)) eqn:E.
+  - split; [lia|]. destruct (nth_error l (Z.to_nat i)) eqn:N; [|discriminate]. injection P as <-.
+    symmetry. now apply nth_error_nth.
+  - destruct ((- zlen l <=? i) && (i <? 0)) eqn:E2; [lia|discriminate].
+Qed.
+
+(* ------------------------------------------------------------------ 3. rows of a concatenation *)
+
+Definition row (CH : list tree) (S : list sel) (x : Z) : tree := take (child (Node CH) x) S.
+
+Lemma take_node CH P (d : bool) S :
+  take (Node CH) ((P, d) :: S) = if d then row CH S (hd 0 P) else Node (map (row CH S) P).
+Proof. reflexivity. Qed.
+
+Lemma bnd_nonneg lens j : Forall (fun h => 0 <= h) lens -> 0 <= bnd lens j.
+Proof.
+  intro H. revert j. induction H as [|h r Hh _ IH]; intro j; [destruct j; reflexivity|].
+  destruct j; [rewrite bnd_0; lia|]. rewrite bnd_cons. specialize (IH j). lia.
+Qed.
+
+Lemma zlens_nonneg {A} (chs : list (list A)) : Forall (fun h => 0 <= h) (map zlen chs).
+Proof. apply Forall_forall. intros x Hx. apply in_map_iff in Hx. destruct Hx as [y [<- _]]. apply zlen_nonneg. Qed.
+
+Lemma child_concat : forall (chs : list (list tree)) i q, (i < List.length chs)%nat -> 0 <= q < zlen (nth i chs []) ->
+  child (Node (List.concat chs)) (bnd (map zlen chs) i + q) = child (Node (nth i chs [])) q.
+Proof.
+  induction chs as [|c r IH]; intros i q Hi Hq; [cbn in Hi; lia|].
+  unfold child, children in *. destruct i.
+  - rewrite bnd_0. cbn [List.concat nth Z.add] in *. rewrite app_nth1 by (unfold zlen in Hq; lia). reflexivity.
+  - cbn [map]. rewrite bnd_cons. cbn [List.concat nth] in *.
+    pose proof (bnd_nonneg (map zlen r) i (zlens_nonneg r)).
+    replace (Z.to_nat (zlen c + bnd (map zlen r) i + q)) with (List.length c + Z.to_nat (bnd (map zlen r) i + q))%nat
+      by (unfold zlen in *; lia).
+    rewrite app_nth2_plus. apply IH; [cbn in Hi; lia|assumption].
+Qed.
+
+(* ------------------------------------------------------------------ 4. what is known about a part *)
+
+Definition part_ok (T : list Z) (dt : Z) (p : cpart) (f : nd) : Prop :=
+  nd_shape f = part_len p :: T /\ part_tail p = T
+  /\ (exists ch, nd_body f = Node ch /\ zlen ch = part_len p)
+  /\ (forall ixs out, part_get p ixs = Ok out -> oindex f ixs = Ok (a_nd out) /\ a_dtype out = dt).
+
+Lemma pad_to_id : forall k l, List.length l = k -> pad_to k l = l.
+Proof. induction k; intros [|x l] H; try discriminate; cbn; [reflexivity|]. f_equal. apply IHk. now injection H. Qed.
+
+Lemma oindex_cons f h T hix tail : nd_shape f = h :: T -> List.length tail = List.length T ->
+  oindex f (hix :: tail) =
+  (hs <- resolve h hix ;; S <- mapM (fun p => resolve (fst p) (snd p)) (combine T tail) ;;
+   Ok (mk_nd (take_shape (hs :: S)) (take (nd_body f) (hs :: S)))).
+Proof.
+  intros Hs Ht. unfold oindex, resolve_all. rewrite Hs. cbn [List.length pad_to combine mapM fst snd].
+  rewrite pad_to_id by assumption. destruct (resolve h hix); [|reflexivity]. cbn [bind].
+  destruct (mapM _ _); reflexivity.
+Qed.
+
+Lemma wrap_nonneg n x q : 0 <= x -> wrap n x = Some q -> q = x /\ x < n.
+Proof.
+  intros Hx H. unfold wrap in H. destruct ((0 <=? x) && (x <? n)) eqn:E; [injection H as <-; lia|].
+  destruct ((- n <=? x) && (x <? 0)) eqn:E2; [lia|discriminate].
+Qed.
+
+Section Concat.
+  Context (ps : list cpart) (fs : list nd) (T : list Z) (dt : Z) (tail : list aidx) (S : list sel).
+  Context (HP : Forall2 (part_ok T dt) ps fs).
+  Context (HT : List.length tail = List.length T).
+  Context (HS : mapM (fun p => resolve (fst p) (snd p)) (combine T tail) = Ok S).
+  Context (Hne : ps <> []).
+  Context (Hlen : Forall (fun p => 0 <= part_len p) ps).
+
+  Let lens := map part_len ps.
+  Let starts := starts_from 0 lens.
+  Let chs := map (fun f => children (nd_body f)) fs.
+  Let CH := List.concat chs.
+  Let total := zsum lens.
+
+  Lemma lens_nonneg : Forall (fun h => 0 <= h) lens.
+  Proof. unfold lens. apply Forall_forall. intros x Hx. apply in_map_iff in Hx. destruct Hx as [p [<- Hp]].
+         rewrite Forall_forall in Hlen. auto. Qed.
+
+  Lemma lens_ne : lens <> [].
+  Proof. unfold lens. destruct ps; [congruence|discriminate]. Qed.
+
+  Lemma chs_lens : map zlen chs = lens.
+  Proof.
+    unfold chs, lens. pose proof HP as Q. clear -Q. induction Q as [|p f ps' fs' H _ IH]; [reflexivity|].
+    cbn [map]. f_equal; [|exact IH]. destruct H as [_ [_ [[ch [Hb Hl]] _]]]. rewrite Hb. exact Hl.
+  Qed.
+
+  Lemma fs_length : List.length fs = List.length ps.
+  Proof. pose proof HP as Q. clear -Q. induction Q; cbn; auto. Qed.
+
+  Lemma part_at i (pd : cpart) (fd : nd) : (i < List.length ps)%nat -> part_ok T dt (nth i ps pd) (nth i fs fd).
+  Proof.
+    pose proof HP as Q. clear -Q. revert i. induction Q as [|p f ps' fs' H _ IH]; intros i Hi; [cbn in Hi; lia|].
+    destruct i; [exact H|]. cbn [nth]. apply IH. cbn in Hi. lia.
+  Qed.
+
+  Lemma nth_chs i fd : (i < List.length ps)%nat -> nth i chs [] = children (nd_body (nth i fs fd)).
+  Proof.
+    intro Hi. unfold chs. rewrite nth_indep with (d' := (fun f => children (nd_body f)) fd)
+      by (rewrite map_length, fs_length; exact Hi). exact (map_nth (fun f => children (nd_body f)) fs fd i).
+  Qed.
+
+  (* the answer of one part, in terms of rows of the concatenation *)
+  Lemma part_rows i pd hix out : (i < List.length ps)%nat ->
+    part_get (nth i ps pd) (hix :: tail) = Ok out ->
+    exists Pq d, resolve (nth i lens 0) hix = Ok (Pq, d)
+      /\ a_dtype out = dt
+      /\ a_nd out = mk_nd (take_shape ((Pq, d) :: S))
+                          (if d then row CH S (bnd lens i + hd 0 Pq)
+                           else Node (map (row CH S) (map (fun q => bnd lens i + q) Pq)))
+      /\ in_range (nth i lens 0) Pq /\ (d = true -> Pq <> []).
+  Proof.
+    intros Hi HG. set (fd := mk_nd [] (Leaf 0)).
+    destruct (part_at i pd fd Hi) as [Hsh [Htl [[ch [Hb Hl]] Hget]]].
+    destruct (Hget _ _ HG) as [HO HD].
+    rewrite (oindex_cons _ _ _ _ _ Hsh HT) in HO.
+    assert (Hh : nth i lens 0 = part_len (nth i ps pd)).
+    { unfold lens. rewrite nth_indep with (d' := part_len pd) by (now rewrite map_length). apply map_nth. }
+    rewrite <- Hh in HO.
+    destruct (resolve (nth i lens 0) hix) as [[Pq d]|] eqn:ER; [|discriminate]. cbn [bind] in HO.
+    rewrite HS in HO. cbn [bind] in HO. injection HO as HO.
+    assert (Hr : in_range (nth i lens 0) Pq).
+    { eapply resolve_in_range; [|exact ER]. pose proof lens_nonneg as LN. rewrite Forall_forall in LN.
+      apply LN. apply nth_In. unfold lens. now rewrite map_length. }
+    exists Pq, d. split; [reflexivity|]. split; [exact HD|]. rewrite <- HO. rewrite Hb.
+    assert (Hc : nth i chs [] = ch) by (rewrite (nth_chs i fd Hi), Hb; reflexivity).
+    assert (Hrow : forall q, 0 <= q < nth i lens 0 -> row ch S q = row CH S (bnd lens i + q)).
+    { intros q Hq. unfold row, CH. rewrite <- chs_lens.
+      rewrite child_concat; [now rewrite Hc| unfold chs; rewrite map_length, fs_length; exact Hi|].
+      rewrite Hc, Hl, <- Hh. exact Hq. }
+    split; [|split; [exact Hr|]].
+    - f_equal. destruct d.
+      + destruct Pq as [|q Pq']; [|inversion Hr; subst; cbn [hd]; now apply (Hrow q)].
+        (* an integer index always resolves to one position *)
+        destruct hix; cbn in ER; try (destruct (slice_positions _ _ _ _); discriminate);
+          try (destruct (zlen m =? _); discriminate); try (destruct (mapM _ l); discriminate).
+        unfold wrap_res in ER. destruct (wrap _ z); discriminate.
+      + f_equal. rewrite map_map. apply map_ext_in. intros q Hq.
+        unfold in_range in Hr. rewrite Forall_forall in Hr. apply (Hrow q). now apply Hr.
+    - intros ->. destruct hix; cbn in ER; try (destruct (slice_positions _ _ _ _); discriminate);
+        try (destruct (zlen m =? _); discriminate); try (destruct (mapM _ l); discriminate).
+      unfold wrap_res in ER. destruct (wrap _ z); [|discriminate]. cbn in ER. injection ER as <-. discriminate.
+  Qed.
+End Concat.
+
+(* ------------------------------------------------------------------ 5. the four head branches *)
+
+Lemma mapM_Forall2_rel {A B} (f : A -> res B) (Rel : A -> B -> Prop) l ys :
+  mapM f l = Ok ys -> (forall x y, In x l -> f x = Ok y -> Rel x y) -> Forall2 Rel l ys.
+Proof.
+  revert ys. induction l as [|x r IH]; intros ys H HR; cbn in H.
+  - injection H as <-. constructor.
+  - destruct (f x) eqn:E; [|discriminate]. cbn in H. destruct (mapM f r) eqn:E2; [|discriminate].
+    cbn in H. injection H as <-. constructor; [apply HR; [now left|exact E]|].
+    apply IH; auto. intros x' y' Hin. apply HR. now right.
+Qed.
+
+Lemma skipn_nth_cons {A} (l : list A) i d : (i < List.length l)%nat -> skipn i l = nth i l d :: skipn (S i) l.
+Proof.
+  revert i. induction l as [|x r IH]; intros i H; [cbn in H; lia|].
+  destruct i; [reflexivity|]. cbn [skipn nth]. apply IH. cbn in H. lia.
+Qed.
+
+Lemma wrap_norm n z p : wrap n z = Some p -> p = (if z <? 0 then z + n else z) /\ 0 <= p < n.
+Proof.
+  intro H. pose proof (wrap_range _ _ _ H). split; [|assumption]. unfold wrap in H.
+  destruct ((0 <=? z) && (z <? n)) eqn:E; [injection H as <-; assert (E2 : (z <? 0) = false) by lia; now rewrite E2|].
+  destruct ((- n <=? z) && (z <? 0)) eqn:E2; [|discriminate]. injection H as <-.
+  assert (E3 : (z <? 0) = true) by lia. now rewrite E3.
+Qed.
+
+Section Branches.
+  Context (ps : list cpart) (fs : list nd) (T : list Z) (dt : Z) (tail : list aidx) (S : list sel).
+  Context (HP : Forall2 (part_ok T dt) ps fs).
+  Context (HT : List.length tail = List.length T).
+  Context (HS : mapM (fun p => resolve (fst p) (snd p)) (combine T tail) = Ok S).
+  Context (Hne : ps <> []).
+  Context (Hlen : Forall (fun p => 0 <= part_len p) ps).
+
+  Let lens := map part_len ps.
+  Let starts := starts_from 0 lens.
+  Let CH := List.concat (map (fun f => children (nd_body f)) fs).
+  Let total := zsum lens.
+  Let k := List.length ps.
+
+  Definition head_result (out : arr) (hs : sel) : Prop :=
+    a_dtype out = dt /\ a_nd out = mk_nd (take_shape (hs :: S)) (take (Node CH) (hs :: S)).
+
+  Let LN := lens_nonneg ps Hlen.
+  Lemma LE : lens <> [].
+  Proof. unfold lens. destruct ps; [congruence|discriminate]. Qed.
+
+  Lemma lens_len : List.length lens = k.
+  Proof. unfold lens, k. apply map_length. Qed.
+
+  Lemma starts_nth i : (i < k)%nat -> nth i starts 0 = bnd lens i.
+  Proof. intro H. unfold starts. rewrite starts_from_nth by (now rewrite lens_len). lia. Qed.
+
+  Lemma total_bnd : total = bnd lens k.
+  Proof. unfold total. rewrite <- lens_len. now rewrite bnd_all. Qed.
+
+  (* --- scalar head --- *)
+  Lemma head_scalar z out : c_head ps dt total S (AInt z) tail = Ok out ->
+    exists hs, resolve total (AInt z) = Ok hs /\ head_result out hs.
+  Proof.
+    cbn [c_head]. fold lens. fold starts.
+    set (z' := if z <? 0 then total + z else z).
+    destruct ((0 <=? z') && (z' <? total)) eqn:E; [|discriminate].
+    destruct (find_indexer_spec lens z' LN LE ltac:(lia)) as [I1 [I2 I3]].
+    set (ind := find_indexer starts z') in *. fold starts in I1, I2, I3. fold ind in I1, I2, I3.
+    set (pd := mk_cpart (mk_lazyidx [] [] [] 0) (Leaf 0)).
+    assert (Hi : (Z.to_nat ind < k)%nat) by (unfold zlen in I1; rewrite lens_len in I1; lia).
+    rewrite (py_nth_nonneg ps ind pd) by (unfold zlen, k in *; rewrite lens_len in I1; unfold k in I1; lia).
+    cbn [bind]. rewrite (py_nth_nonneg starts ind 0)
+      by (unfold zlen, starts; rewrite starts_from_length, lens_len; unfold zlen in I1; rewrite lens_len in I1; lia).
+    cbn [bind]. rewrite starts_nth by assumption. intro HG.
+    destruct (part_rows ps fs T dt tail S HP HT HS Hlen _ pd _ _ Hi HG) as [Pq [d [ER [HD [HN _]]]]].
+    fold lens in ER, HN. cbn [resolve] in ER. unfold wrap_res in ER.
+    destruct (wrap (nth (Z.to_nat ind) lens 0) (z' - bnd lens (Z.to_nat ind))) as [q|] eqn:W; [|discriminate].
+    cbn [bind] in ER. injection ER as <- <-.
+    assert (Hnn : 0 <= z' - bnd lens (Z.to_nat ind)) by lia.
+    destruct (wrap_nonneg _ _ _ Hnn W) as [-> _].
+    exists ([z'], true). split.
+    - cbn [resolve]. unfold wrap_res.
+      assert (W2 : wrap total z = Some z').
+      { clear -E. unfold wrap. subst z'. clearbody total. destruct (z <? 0) eqn:Ez; rewrite ?Ez in E.
+        - destruct ((0 <=? z) && (z <? total)) eqn:E1; [exfalso; lia|].
+          destruct (- total <=? z) eqn:E2; cbn [andb]; [f_equal; lia|exfalso; lia].
+        - destruct ((0 <=? z) && (z <? total)) eqn:E1; [reflexivity|exfalso; lia]. }
+      now rewrite W2.
+    - split; [exact HD|]. rewrite HN. fold CH. cbn [hd take_shape]. rewrite take_node. cbn [hd].
+      do 2 f_equal. lia.
+  Qed.
+
+  (* --- chunks of the slice and mask branches: rows of the concatenation at positions Pos j --- *)
+  Lemma chunks_rows (Pos : nat -> list Z) js chunks out :
+    Forall2 (fun j c => a_dtype c = dt /\ a_nd c = mk_nd (zlen (Pos j) :: take_shape S) (Node (map (row CH S) (Pos j)))) js chunks ->
+    concat_chunks dt (take_shape S) chunks = Ok out ->
+    out = mk_arr dt (mk_nd (zlen (flat_map Pos js) :: take_shape S) (Node (map (row CH S) (flat_map Pos js)))).
+  Proof.
+    intros HF HC. unfold concat_chunks in HC. destruct chunks as [|c0 cr] eqn:EC; [discriminate|]. rewrite <- EC in *.
+    injection HC as <-. clear EC c0 cr. f_equal. unfold cat.
+    assert (G : zsum (map (fun x => hd 0 (nd_shape (a_nd x))) chunks) = zlen (flat_map Pos js)
+                /\ flat_map children (map (fun x => nd_body (a_nd x)) chunks) = map (row CH S) (flat_map Pos js)).
+    { induction HF as [|j c js' cs' [_ H] _ IH]; [split; reflexivity|].
+      destruct IH as [IH1 IH2]. cbn [map flat_map zsum fold_right]. rewrite H. cbn [nd_shape nd_body hd children].
+      fold (zsum (map (fun x => hd 0 (nd_shape (a_nd x))) cs')). rewrite IH1, IH2, zlen_app, map_app. split; reflexivity. }
+    destruct G as [-> ->]. reflexivity.
+  Qed.
+End Branches.
+
+Lemma Forall2_map_l {A B C} (g : A -> C) (Rel : C -> B -> Prop) l ys :
+  Forall2 (fun x y => Rel (g x) y) l ys -> Forall2 Rel (map g l) ys.
+Proof. induction 1; cbn; constructor; auto. Qed.
+
+Lemma py_range_unit_seq : forall (n : nat) a, 0 <= a ->
+  map Z.to_nat (range_list a 1 n) = seq (Z.to_nat a) n.
+Proof.
+  induction n as [|n IH]; intros a Ha; [reflexivity|].
+  rewrite range_list_S. cbn [map seq]. f_equal. rewrite IH by lia. f_equal. lia.
+Qed.
+
+Section SliceBranch.
+  Context (ps : list cpart) (fs : list nd) (T : list Z) (dt : Z) (tail : list aidx) (S : list sel).
+  Context (HP : Forall2 (part_ok T dt) ps fs).
+  Context (HT : List.length tail = List.length T).
+  Context (HS : mapM (fun p => resolve (fst p) (snd p)) (combine T tail) = Ok S).
+  Context (Hne : ps <> []).
+  Context (Hlen : Forall (fun p => 0 <= part_len p) ps).
+
+  Let lens := map part_len ps.
+  Let starts := starts_from 0 lens.
+  Let CH := List.concat (map (fun f => children (nd_body f)) fs).
+  Let total := zsum lens.
+  Let k := List.length ps.
+  Let LN : Forall (fun h => 0 <= h) lens := lens_nonneg ps Hlen.
+
+  Context (start stop st : Z) (Hst : 0 < st) (Hstart : 0 <= start <= total) (Hstop : 0 <= stop <= total).
+
+  Let Pos (j : nat) : list Z := py_range (first_ge start st (bnd lens j)) (Z.min (bnd lens (Datatypes.S j)) stop) st.
+
+  Lemma telescope : forall n j, (j + n <= k)%nat ->
+    flat_map Pos (seq j n) ++ py_range (first_ge start st (bnd lens (j + n))) stop st
+    = py_range (first_ge start st (bnd lens j)) stop st.
+  Proof.
+    induction n as [|n IH]; intros j Hj.
+    - cbn [seq flat_map app]. now rewrite Nat.add_0_r.
+    - cbn [seq flat_map]. rewrite <- app_assoc.
+      replace (j + Datatypes.S n)%nat with (Datatypes.S j + n)%nat by lia. rewrite IH by lia.
+      unfold Pos.
+      assert (Hl : List.length lens = k) by (unfold lens, k; apply map_length).
+      pose proof (bnd_mono lens j LN ltac:(lia)) as Hm.
+      rewrite <- (first_ge_idem start st (bnd lens j) (bnd lens (Datatypes.S j)) Hst Hm).
+      symmetry. apply (py_range_split st stop (bnd lens (Datatypes.S j)) Hst
+                         (Z.to_nat (stop - first_ge start st (bnd lens j)))). lia.
+  Qed.
+
+  Lemma head_slice_chunks chunks out :
+    mapM (slice_chunk ps starts tail (take_shape S) start stop st)
+         (py_range (find_indexer starts start) (find_indexer starts stop + 1) 1) = Ok chunks ->
+    concat_chunks dt (take_shape S) chunks = Ok out ->
+    head_result fs dt S out (py_range start stop st, false).
+  Proof.
+    intros HM HC.
+    assert (LE : lens <> []) by (unfold lens; destruct ps; [congruence|discriminate]).
+    assert (Hl : List.length lens = k) by (unfold lens, k; apply map_length).
+    destruct (find_indexer_spec lens start LN LE ltac:(lia)) as [A1 [A2 A3]].
+    destruct (find_indexer_spec lens stop LN LE ltac:(lia)) as [B1 [B2 B3]].
+    fold starts in A1, A2, A3, B1, B2, B3.
+    set (ia := find_indexer starts start) in *. set (ib := find_indexer starts stop) in *.
+    unfold zlen in A1, B1. rewrite Hl in A1, B1.
+    destruct (Z_lt_ge_dec (ib + 1) ia) as [Hlt|Hge].
+    { rewrite py_range_nil in HM by lia. cbn in HM. injection HM as <-. discriminate. }
+    set (pd := mk_cpart (mk_lazyidx [] [] [] 0) (Leaf 0)).
+    (* every chunk is the block of rows Pos j of the concatenation *)
+    assert (HF : Forall2 (fun j c => a_dtype c = dt /\ a_nd c = mk_nd (zlen (Pos j) :: take_shape S) (Node (map (row CH S) (Pos j))))
+                         (map Z.to_nat (py_range ia (ib + 1) 1)) chunks).
+    { apply Forall2_map_l. eapply mapM_Forall2_rel; [exact HM|]. intros ind c Hin Hc.
+      destruct (py_range_bounds ia (ib + 1) 1 ind ltac:(lia) Hin) as [Bd _]. specialize (Bd ltac:(lia)).
+      set (j := Z.to_nat ind).
+      assert (Hj : (j < k)%nat) by (unfold j; lia).
+      unfold slice_chunk in Hc.
+      rewrite (py_nth_nonneg ps ind pd) in Hc by (unfold zlen; fold k; lia). cbn [bind] in Hc.
+      rewrite (py_nth_nonneg starts ind 0) in Hc
+        by (unfold zlen, starts; rewrite starts_from_length, Hl; lia). cbn [bind] in Hc.
+      fold j in Hc.
+      assert (Hoff : nth j starts 0 = bnd lens j).
+      { unfold starts. rewrite starts_from_nth by (rewrite Hl; exact Hj). lia. }
+      rewrite Hoff in Hc.
+      set (off := bnd lens j) in *.
+      set (cs := if off <=? start then start - off else (start - off) mod st) in *.
+      destruct (part_get (nth j ps pd) _) as [sub|] eqn:EG; [|discriminate]. cbn [bind] in Hc.
+      unfold reshape_chunk in Hc. destruct (existsb _ _); [discriminate|]. injection Hc as <-.
+      destruct (part_rows ps fs T dt tail S HP HT HS Hlen _ pd _ _ Hj EG) as [Pq [d [ER [HD [HN _]]]]].
+      fold lens in ER, HN. fold CH in HN. fold off in HN.
+      cbn [resolve] in ER. destruct (slice_positions _ _ _ _) as [Pq'|] eqn:SP; [|discriminate].
+      injection ER as <- <-.
+      assert (Hcs : 0 <= cs) by (unfold cs; destruct (off <=? start) eqn:E; [lia|apply Z.mod_pos_bound; lia]).
+      assert (Hoffs : off <= stop).
+      { unfold off. pose proof (bnd_mono_le lens j (Z.to_nat ib) LN ltac:(unfold j; lia)). lia. }
+      assert (Hh : 0 <= nth j lens 0).
+      { rewrite Forall_forall in LN. apply LN. apply nth_In. rewrite Hl. exact Hj. }
+      pose proof (local_slice_positions off _ cs stop st Pq' Hst Hh Hcs ltac:(lia) SP) as LP.
+      assert (Hfg : off + cs = first_ge start st off).
+      { unfold cs, first_ge. destruct (off <=? start); lia. }
+      assert (HS1 : off + nth j lens 0 = bnd lens (Datatypes.S j)) by (unfold off; rewrite bnd_S by (rewrite Hl; exact Hj); lia).
+      rewrite Hfg, HS1 in LP.
+      assert (LP' : map (fun q => off + q) Pq' = Pos j) by (unfold Pos; fold off; exact LP).
+      split; [exact HD|]. rewrite HN. cbn [take_shape]. rewrite LP'.
+      f_equal. f_equal. rewrite <- LP'. now rewrite zlen_map. }
+    pose proof (chunks_rows fs dt S Pos _ _ _ HF HC) as ->.
+    (* the blocks tile the global progression *)
+    assert (HJ : map Z.to_nat (py_range ia (ib + 1) 1) = seq (Z.to_nat ia) (Z.to_nat (ib + 1 - ia))).
+    { rewrite py_range_unit by lia. apply py_range_unit_seq. lia. }
+    rewrite HJ.
+    pose proof (telescope (Z.to_nat (ib + 1 - ia)) (Z.to_nat ia) ltac:(lia)) as TL.
+    replace (Z.to_nat ia + Z.to_nat (ib + 1 - ia))%nat with (Datatypes.S (Z.to_nat ib)) in TL by lia.
+    assert (Hrest : py_range (first_ge start st (bnd lens (Datatypes.S (Z.to_nat ib)))) stop st = []).
+    { destruct (first_ge_ge start st (bnd lens (Datatypes.S (Z.to_nat ib))) Hst) as [G1 G2].
+      apply py_range_nil; [exact Hst|].
+      destruct (Z_lt_ge_dec (ib + 1) (Z.of_nat k)) as [Hin|Hlast].
+      - specialize (B3 ltac:(unfold zlen; rewrite Hl; lia)). lia.
+      - assert (EK : Datatypes.S (Z.to_nat ib) = k) by lia. rewrite EK in *.
+        assert (bnd lens k = total) by (unfold total; rewrite <- Hl; apply bnd_all). lia. }
+    rewrite Hrest, app_nil_r in TL.
+    assert (Hhead : first_ge start st (bnd lens (Z.to_nat ia)) = start).
+    { unfold first_ge. assert (E : (bnd lens (Z.to_nat ia) <=? start) = true) by lia. now rewrite E. }
+    rewrite Hhead in TL. rewrite TL.
+    split; [reflexivity|]. cbn [a_nd take_shape]. rewrite take_node. reflexivity.
+  Qed.
+End SliceBranch.
+
+(* a real part (LazyIndexer without transforms over any source) satisfies part_ok *)
+Lemma part_ok_of_raw r li a1 :
+  Forall (fun d => 0 <= d) (r_shape r) -> r_shape r <> [] ->
+  mk_lazy (r_shape r) (r_keep r) [] (r_dt r) = Ok li ->
+  oindex_keep (mk_nd (r_shape r) (r_ds r)) (r_keep r) = Ok a1 ->
+  part_ok (tl (nd_shape a1)) (r_dt r) (mk_cpart li (r_ds r)) a1 /\ 0 <= part_len (mk_cpart li (r_ds r)).
+Proof.
+  intros Hs Hne HM H1.
+  destruct (mk_lazy_fields _ _ _ _ _ _ _ Hs HM H1) as [F1 [F2 [F3 [F4 [F5 F6]]]]].
+  unfold part_ok, part_len, part_tail. cbn [cp_li cp_ds]. rewrite F1.
+  assert (Hnd : exists h T, nd_shape a1 = h :: T).
+  { destruct (nd_shape a1) as [|h T] eqn:E; [|eauto]. destruct (r_shape r); [congruence|discriminate]. }
+  destruct Hnd as [h [T Hsh]]. rewrite Hsh. cbn [hd tl]. rewrite Hsh in F5.
+  assert (Hh : 0 <= h) by (inversion F5; assumption). split; [|exact Hh]. split; [reflexivity|]. split; [reflexivity|]. split.
+  - (* body is a Node with h children *)
+    unfold oindex_keep, keep_sels in H1. cbn [nd_shape nd_body] in H1.
+    destruct (mapM _ _) as [sels1|] eqn:EK in H1; [|discriminate]. cbn [bind] in H1. injection H1 as <-.
+    cbn [nd_shape nd_body] in *.
+    destruct (r_shape r) as [|n sh]; [congruence|]. cbn [List.length] in EK.
+    destruct (r_keep r) as [|i0 ir]; cbn [pad_to combine mapM fst snd] in EK;
+      (destruct (resolve_keep n _) as [p1|]; [|discriminate]); cbn [bind] in EK;
+      (destruct (mapM _ (combine sh _)) as [rest|]; [|discriminate]); cbn [bind] in EK; injection EK as <-;
+      cbn [take_shape take] in *; injection Hsh as <- _; (eexists; split; [reflexivity|]); now rewrite zlen_map.
+  - intros ixs out HG. unfold part_get in HG. cbn [cp_li cp_ds] in HG.
+    pose proof (getitem_correct _ _ _ _ _ _ _ _ _ Hs HM H1 HG) as SP.
+    unfold spec_getitem in SP. rewrite H1 in SP. cbn [bind] in SP.
+    destruct (oindex a1 ixs) as [a2|]; [|discriminate]. cbn in SP. injection SP as <-. split; reflexivity.
+Qed.
+
+(* ------------------------------------------------------------------ 7. mask head *)
+
+Lemma firstn_add {A} : forall x y (l : list A), firstn (x + y) l = firstn x l ++ firstn y (skipn x l).
+Proof. induction x; intros y l; [reflexivity|]. destruct l; cbn; [now rewrite firstn_nil|]. now rewrite IHx. Qed.
+
+Lemma skipn_add {A} : forall x y (l : list A), skipn (x + y) l = skipn y (skipn x l).
+Proof. induction x; intros y l; [reflexivity|]. destruct l; cbn; [now rewrite skipn_nil|]. apply IHx. Qed.
+
+Lemma zslice_split {A} (m : list A) a b c : 0 <= a <= b -> b <= c ->
+  zslice m a c = zslice m a b ++ zslice m b c.
+Proof.
+  intros H1 H2. unfold zslice.
+  replace (Z.to_nat (c - a)) with (Z.to_nat (b - a) + Z.to_nat (c - b))%nat by lia.
+  rewrite firstn_add. f_equal. f_equal. rewrite <- skipn_add. f_equal. lia.
+Qed.
+
+Lemma zslice_len {A} (m : list A) a b : 0 <= a <= b -> b <= zlen m -> zlen (zslice m a b) = b - a.
+Proof.
+  intros H1 H2. unfold zslice, zlen in *. rewrite firstn_length, skipn_length. lia.
+Qed.
+
+Lemma nonzero_from_app o l1 l2 : nonzero_from o (l1 ++ l2) = nonzero_from o l1 ++ nonzero_from (o + zlen l1) l2.
+Proof.
+  revert o. induction l1 as [|b r IH]; intro o; cbn [app nonzero_from].
+  - change (zlen (@nil bool)) with 0. now rewrite Z.add_0_r.
+  - rewrite IH, zlen_cons. replace (o + 1 + zlen r) with (o + (1 + zlen r)) by lia. destruct b; reflexivity.
+Qed.
+
+Lemma nonzero_from_shift_gen o : forall l i, map (fun q => o + q) (nonzero_from i l) = nonzero_from (o + i) l.
+Proof.
+  induction l as [|b r IH]; intro i; [reflexivity|]. cbn [nonzero_from].
+  replace (o + i + 1) with (o + (i + 1)) by lia. destruct b; cbn [map]; now rewrite IH.
+Qed.
+
+Lemma nonzero_from_shift o l : map (fun q => o + q) (nonzero l) = nonzero_from o l.
+Proof. unfold nonzero. rewrite nonzero_from_shift_gen. now rewrite Z.add_0_r. Qed.
+
+Section MaskBranch.
+  Context (ps : list cpart) (fs : list nd) (T : list Z) (dt : Z) (tail : list aidx) (S : list sel).
+  Context (HP : Forall2 (part_ok T dt) ps fs).
+  Context (HT : List.length tail = List.length T).
+  Context (HS : mapM (fun p => resolve (fst p) (snd p)) (combine T tail) = Ok S).
+  Context (Hne : ps <> []).
+  Context (Hlen : Forall (fun p => 0 <= part_len p) ps).
+
+  Let lens := map part_len ps.
+  Let starts := starts_from 0 lens.
+  Let CH := List.concat (map (fun f => children (nd_body f)) fs).
+  Let total := zsum lens.
+  Let k := List.length ps.
+  Let LN : Forall (fun h => 0 <= h) lens := lens_nonneg ps Hlen.
+
+  Context (m : list bool) (Hm : zlen m = total).
+
+  Let Pos (j : nat) : list Z := map (fun q => bnd lens j + q) (nonzero (zslice m (bnd lens j) (bnd lens (Datatypes.S j)))).
+
+  Lemma mask_telescope : forall n j, (j + n <= k)%nat ->
+    flat_map Pos (seq j n) = nonzero_from (bnd lens j) (zslice m (bnd lens j) (bnd lens (j + n))).
+  Proof.
+    assert (Hl : List.length lens = k) by (unfold lens, k; apply map_length).
+    induction n as [|n IH]; intros j Hj.
+    - cbn [seq flat_map]. rewrite Nat.add_0_r. unfold zslice. rewrite Z.sub_diag. reflexivity.
+    - cbn [seq flat_map]. rewrite IH by lia. unfold Pos. rewrite nonzero_from_shift.
+      pose proof (bnd_nonneg lens j LN). pose proof (bnd_mono lens j LN ltac:(lia)).
+      pose proof (bnd_mono_le lens (Datatypes.S j) (Datatypes.S j + n) LN ltac:(lia)).
+      pose proof (bnd_mono_le lens (Datatypes.S j + n) k LN ltac:(lia)).
+      assert (bnd lens k = total) by (unfold total; rewrite <- Hl; apply bnd_all).
+      replace (j + Datatypes.S n)%nat with (Datatypes.S j + n)%nat by lia.
+      rewrite (zslice_split m (bnd lens j) (bnd lens (Datatypes.S j)) (bnd lens (Datatypes.S j + n))) by lia.
+      rewrite nonzero_from_app. rewrite zslice_len by lia. do 2 f_equal. lia.
+  Qed.
+
+  Lemma head_mask_chunks chunks out :
+    mapM (mask_chunk m tail (take_shape S)) (combine (combine ps starts) lens) = Ok chunks ->
+    concat_chunks dt (take_shape S) chunks = Ok out ->
+    head_result fs dt S out (nonzero m, false).
+  Proof.
+    intros HM HC.
+    assert (Hl : List.length lens = k) by (unfold lens, k; apply map_length).
+    set (pd := mk_cpart (mk_lazyidx [] [] [] 0) (Leaf 0)).
+    assert (HCmb : combine (combine ps starts) lens
+                   = map (fun j => (nth j ps pd, nth j starts 0, nth j lens 0)) (seq 0 k)).
+    { apply nth_ext with (d := (pd, 0, 0)) (d' := (nth 0 ps pd, nth 0 starts 0, nth 0 lens 0)).
+      - rewrite !combine_length, map_length, seq_length. unfold starts. rewrite starts_from_length, Hl. fold k. lia.
+      - intros n Hn. rewrite !combine_length in Hn. unfold starts in Hn. rewrite starts_from_length, Hl in Hn. fold k in Hn.
+        rewrite !combine_nth by (rewrite ?combine_length; unfold starts; rewrite ?starts_from_length, ?Hl; fold k; lia).
+        change (nth 0 ps pd, nth 0 starts 0, nth 0 lens 0)
+          with ((fun j => (nth j ps pd, nth j starts 0, nth j lens 0)) 0%nat).
+        rewrite map_nth. rewrite seq_nth by lia. reflexivity. }
+    rewrite HCmb, mapM_map in HM.
+    assert (HF : Forall2 (fun j c => a_dtype c = dt /\ a_nd c = mk_nd (zlen (Pos j) :: take_shape S) (Node (map (row CH S) (Pos j))))
+                         (seq 0 k) chunks).
+    { eapply mapM_Forall2_rel; [exact HM|]. intros j c Hin Hc. apply in_seq in Hin.
+      assert (Hj : (j < k)%nat) by lia.
+      unfold mask_chunk in Hc. cbn [fst snd] in Hc.
+      assert (Hoff : nth j starts 0 = bnd lens j).
+      { unfold starts. rewrite starts_from_nth by (rewrite Hl; exact Hj). lia. }
+      rewrite Hoff in Hc. rewrite <- bnd_S in Hc by (rewrite Hl; exact Hj).
+      destruct (part_get (nth j ps pd) _) as [sub|] eqn:EG; [|discriminate]. cbn [bind] in Hc.
+      unfold reshape_chunk in Hc. destruct (existsb _ _); [discriminate|]. injection Hc as <-.
+      destruct (part_rows ps fs T dt tail S HP HT HS Hlen _ pd _ _ Hj EG) as [Pq [d [ER [HD [HN _]]]]].
+      fold lens in ER, HN. fold CH in HN.
+      cbn [resolve] in ER. destruct (zlen _ =? _); [|discriminate]. injection ER as <- <-.
+      split; [exact HD|]. rewrite HN. cbn [take_shape]. fold (Pos j). f_equal. f_equal.
+      unfold Pos. now rewrite zlen_map. }
+    pose proof (chunks_rows fs dt S Pos _ _ _ HF HC) as ->.
+    rewrite (mask_telescope k 0 ltac:(lia)). rewrite bnd_0. cbn [Nat.add].
+    assert (bnd lens k = total) by (unfold total; rewrite <- Hl; apply bnd_all).
+    assert (HZ : zslice m 0 (bnd lens k) = m).
+    { unfold zslice. cbn [Z.to_nat skipn]. rewrite H, <- Hm, Z.sub_0_r. unfold zlen. rewrite Nat2Z.id. apply firstn_all. }
+    rewrite HZ. fold (nonzero m).
+    split; [reflexivity|]. cbn [a_nd take_shape]. rewrite take_node. reflexivity.
+  Qed.
+End MaskBranch.
+
+(* ------------------------------------------------------------------ 6. assembly *)
+
+Section Core.
+  Context (ps : list cpart) (fs : list nd) (T : list Z) (dt : Z).
+  Context (HP : Forall2 (part_ok T dt) ps fs).
+  Context (Hne : ps <> []).
+  Context (Hlen : Forall (fun p => 0 <= part_len p) ps).
+
+  Let lens := map part_len ps.
+  Let CH := List.concat (map (fun f => children (nd_body f)) fs).
+  Let total := zsum lens.
+
+  (* head kinds whose branch is proved below *)
+  Definition head_proved (head : aidx) : Prop :=
+    match head with AInt _ | ASlice _ _ _ | AMask _ => True | AList _ => False end.
+
+  Lemma head_all tail S head out0 : List.length tail = List.length T ->
+    mapM (fun p => resolve (fst p) (snd p)) (combine T tail) = Ok S ->
+    head_proved head ->
+    c_head ps dt total S head tail = Ok out0 ->
+    exists hs, resolve total head = Ok hs /\ head_result fs dt S out0 hs.
+  Proof.
+    intros HT HS Hh HC. destruct head as [z|a b cc|m|l]; try contradiction.
+    - exact (head_scalar ps fs T dt tail S HP HT HS Hne Hlen z out0 HC).
+    - cbn [c_head] in HC. fold lens in HC. fold total in HC.
+      destruct (slice_indices total a b cc) as [[[start stop] st]|] eqn:ESI; [|discriminate].
+      destruct (st <? 0) eqn:Est; [discriminate|].
+      assert (Htot : 0 <= total).
+      { unfold total. pose proof (lens_nonneg ps Hlen) as LN. fold lens in LN. clear -LN.
+        induction LN; cbn; [lia|]. fold (zsum l). lia. }
+      destruct (slice_indices_bounds _ _ _ _ _ _ _ Htot ESI) as [H0 [Bp _]].
+      specialize (Bp ltac:(lia)).
+      destruct (mapM _ _) as [chunks|] eqn:EM in HC; [|discriminate]. cbn [bind] in HC.
+      exists (py_range start stop st, false). split.
+      + cbn [resolve]. unfold slice_positions. now rewrite ESI.
+      + assert (Hst : 0 < st) by lia.
+        exact (head_slice_chunks ps fs T dt tail S HP HT HS Hne Hlen start stop st Hst (proj1 Bp) (proj2 Bp) chunks out0 EM HC).
+    - cbn [c_head] in HC. fold lens in HC. fold total in HC.
+      destruct (zlen m =? total) eqn:EL; [|discriminate].
+      destruct (mapM _ _) as [chunks|] eqn:EM in HC; [|discriminate]. cbn [bind] in HC.
+      exists (nonzero m, false). split.
+      + cbn [resolve]. now rewrite EL.
+      + assert (Hm : zlen m = total) by lia.
+        exact (head_mask_chunks ps fs T dt tail S HP HT HS Hlen m Hm chunks out0 EM HC).
+  Qed.
+
+  Lemma concat_core ts ixs out :
+    c_initial_dtype ps = Ok dt ->
+    head_proved (hd full (pad_to (Datatypes.S (List.length T)) ixs)) ->
+    c_getitem (mk_concat ps ts) ixs = Ok out ->
+    (r <- oindex (mk_nd (total :: T) (Node CH)) ixs ;; apply_transforms ts (mk_arr dt r)) = Ok out.
+  Proof.
+    intros Hdt Hh HG. unfold c_getitem in HG. cbn [c_parts c_ts] in HG.
+    assert (HI : c_initial_shape ps = Ok (total :: T) \/ c_initial_shape ps = Err).
+    { unfold c_initial_shape. destruct ps as [|p r] eqn:EP; [now right|].
+      destruct (forallb _ r); [left|now right]. inversion HP as [|? f ? fs' H0 _]; subst.
+      destruct H0 as [_ [Ht _]]. rewrite Ht. reflexivity. }
+    destruct HI as [HI|HI]; rewrite HI in HG; [|discriminate]. cbn [bind] in HG.
+    rewrite Hdt in HG. cbn [bind List.length] in HG.
+    destruct (pad_to (Datatypes.S (List.length T)) ixs) as [|head tail] eqn:EPad; [discriminate|].
+    assert (HT : List.length tail = List.length T).
+    { pose proof (pad_to_length (Datatypes.S (List.length T)) ixs) as PL. rewrite EPad in PL. cbn in PL. lia. }
+    destruct (mapM _ (combine T tail)) as [S|] eqn:ES in HG; [|discriminate]. cbn [bind] in HG.
+    destruct (c_head ps dt total S head tail) as [out0|] eqn:EH; [|discriminate]. cbn [bind] in HG.
+    cbn [hd] in Hh.
+    destruct (head_all tail S head out0 HT ES Hh EH) as [hs [ER [HD HN]]].
+    unfold oindex, resolve_all. cbn [nd_shape nd_body List.length]. rewrite EPad.
+    cbn [combine mapM fst snd]. rewrite ER. cbn [bind]. rewrite ES. cbn [bind].
+    destruct out0 as [d0 n0]. cbn [a_dtype a_nd] in HD, HN. subst d0 n0. exact HG.
+  Qed.
+End Core.
+
